@@ -7,6 +7,7 @@ package server
 // check spec ("models") onto the real method names.
 
 import (
+	"bytes"
 	"io"
 
 	"github.com/gorilla/websocket"
@@ -48,4 +49,13 @@ func ZZM_wsWriteMessage(c *websocket.Conn, typ int, data []byte) error {
 	st := zzWSStates[c]
 	st.sent = append(st.sent, zzWSMsg{typ, append([]byte{}, data...)})
 	return nil
+}
+
+// ZZM_wsNextReader: the streaming form of ReadMessage (same script).
+func ZZM_wsNextReader(c *websocket.Conn) (int, io.Reader, error) {
+	typ, data, err := ZZM_wsReadMessage(c)
+	if err != nil {
+		return typ, nil, err
+	}
+	return typ, bytes.NewReader(data), nil
 }
